@@ -170,11 +170,7 @@ pub fn run_crash(p: &Profile, seed: u64, run: u64, ov: &Override, want_case: boo
             let info = take_panic();
             out.viols.push(Viol {
                 props: vec![p.id],
-                sig: format!(
-                    "{}{}",
-                    panic_sig(&info),
-                    if crate::props::cfg_short_l1(&cfg) { "/short-l1-table" } else { "" }
-                ),
+                sig: panic_sig(&info),
                 detail: format!("panic: {info}"),
                 step: 0,
                 nonfatal: false,
@@ -481,6 +477,7 @@ pub fn crash_gen(p: &mut Profile) {
     match p.id {
         "C04" => {
             g.template_pct = 50;
+            g.l1_short_pct = 8;
             g.par_pct = 35;
             g.max_clients = 4;
             g.racy_discard_pct = 30;
